@@ -1,5 +1,87 @@
--- placeholder, theorems follow
-import Spec.Decode
+/-
+  C07 — most compact applicable mode is chosen; a requested mode is honoured or refused.
+  Property theorems only; helper lemmas live in Proofs/Modes.lean.
+-/
+import Spec.Sizing
+import Model.Encoder
+import Proofs.Modes
+
 namespace Props.C07
-theorem placeholder : True := trivial
+
+/-- the 45 alphanumeric characters of `consts.ALPHANUMERIC_CHARS` are the ISO Table 5 set, in order -/
+theorem alnum_table_is_iso : Gen.ALPHANUMERIC_CHARS = Spec.alnumChars.map Char.toNat := by
+  decide
+
+/-- mode constants are the ISO mode indicators -/
+theorem mode_constants :
+    Gen.MODE_NUMERIC = 1 ∧ Gen.MODE_ALPHANUMERIC = 2 ∧ Gen.MODE_BYTE = 4 ∧ Gen.MODE_KANJI = 8 ∧ Gen.MODE_HANZI = 13 := by
+  decide
+
+/-- **automatic mode**: `find_mode` = first applicable of numeric, alphanumeric, kanji, byte, for every byte string -/
+theorem findMode_eq_autoMode (data : List Nat) : Model.findMode data = Spec.autoMode data := by
+  exact Proofs.Modes.findMode_eq_autoMode data
+
+/-- hanzi is never chosen automatically -/
+theorem auto_never_hanzi (data : List Nat) : Model.findMode data ≠ 13 := by
+  exact Proofs.Modes.auto_never_hanzi data
+
+/-- without a requested mode `make_segment` succeeds and uses the automatic mode -/
+theorem makeSegment_auto (data : List Nat) (enc : String) :
+    ∃ s, Model.makeSegment data none enc = .ok s ∧ s.mode = Spec.autoMode data := by
+  exact Proofs.Modes.makeSegment_auto data enc
+
+/-- **requested mode** — ORIGINAL STATEMENT, FALSE as given (kept as a `def … : Prop`, not a theorem).
+    Counterexample: `data = []`, `m = 8` (or `m = 13`): `Spec.representable 8 [] = false`, but
+    `Model.makeSegment [] (some 8) enc = .ok ⟨[], 0, 8, none⟩` (see `makeSegment_requested_counterexample`):
+    `find_mode(b"")` is BYTE (4), `8 < 4` is false, the length is even and there is no pair to validate. -/
+def makeSegment_requested_statement : Prop :=
+  ∀ (data : List Nat) (m : Nat) (enc : String), m ∈ [1, 2, 4, 8, 13] →
+    (Spec.representable m data = true → ∃ s, Model.makeSegment data (some m) enc = .ok s ∧ s.mode = m)
+    ∧ (Spec.representable m data = false → Model.makeSegment data (some m) enc = .error Model.PyErr.valueError)
+
+/-- the original statement is refuted by empty content with kanji requested -/
+theorem makeSegment_requested_counterexample : ¬ makeSegment_requested_statement := by
+  intro h
+  have h8 := (h [] 8 "" (by decide)).2 rfl
+  rw [(Proofs.Modes.makeSegment_empty_double "").1] at h8
+  cases h8
+
+/-- what the model does in the excluded case -/
+theorem makeSegment_empty_double (enc : String) :
+    Model.makeSegment [] (some 8) enc = .ok ⟨[], 0, 8, none⟩ ∧ Model.makeSegment [] (some 13) enc = .ok ⟨[], 0, 13, none⟩
+    ∧ Spec.representable 8 [] = false ∧ Spec.representable 13 [] = false :=
+  Proofs.Modes.makeSegment_empty_double enc
+
+/-- **requested mode** (strongest true variant): honoured exactly when the content is representable in it,
+    refused with ValueError otherwise (m ∈ {numeric, alphanumeric, byte, kanji, hanzi}), for all
+    content except the empty string with kanji / hanzi requested -/
+theorem makeSegment_requested_partial (data : List Nat) (m : Nat) (enc : String) (hm : m ∈ [1, 2, 4, 8, 13])
+    (hne : data ≠ [] ∨ (m ≠ 8 ∧ m ≠ 13)) :
+    (Spec.representable m data = true → ∃ s, Model.makeSegment data (some m) enc = .ok s ∧ s.mode = m)
+    ∧ (Spec.representable m data = false → Model.makeSegment data (some m) enc = .error Model.PyErr.valueError) := by
+  exact Proofs.Modes.makeSegment_requested_partial data m enc hm hne
+
+/-- character count of a segment -/
+theorem makeSegment_charCount (data : List Nat) (mode : Option Nat) (enc : String) (s : Model.Segment)
+    (h : Model.makeSegment data mode enc = .ok s) : s.charCount = Spec.charCount s.mode data.length := by
+  exact Proofs.Modes.makeSegment_charCount data mode enc s h
+
+/-- mode / version compatibility (`SUPPORTED_MODES`) is ISO Table 2: a mode is available in version v
+    exactly when Table 3 has a character count indicator for it -/
+theorem mode_supported_iff_cci :
+    ([1, 2, 4, 8, 13] : List Nat).all (fun m => ([-3, -2, -1, 0, 1, 10, 27, 40] : List Int).all (fun v =>
+      Model.isModeSupported m v == some (Spec.cciBits m v).isSome)) = true := by
+  decide +kernel
+
 end Props.C07
+
+#print axioms Props.C07.alnum_table_is_iso
+#print axioms Props.C07.mode_constants
+#print axioms Props.C07.findMode_eq_autoMode
+#print axioms Props.C07.auto_never_hanzi
+#print axioms Props.C07.makeSegment_auto
+#print axioms Props.C07.makeSegment_requested_partial
+#print axioms Props.C07.makeSegment_requested_counterexample
+#print axioms Props.C07.makeSegment_empty_double
+#print axioms Props.C07.makeSegment_charCount
+#print axioms Props.C07.mode_supported_iff_cci
